@@ -3,4 +3,379 @@ import DC.Proofs.Expiry
 
 namespace DC.Cache
 
+/-! ### `volume()` -/
+
+@[simp] theorem volume_rows (s : Cache) : s.volume.1.rows = s.rows := by
+  unfold volume; simp only [logSql_env]; split <;> rfl
+
+@[simp] theorem volume_cfg (s : Cache) : s.volume.1.cfg = s.cfg := by
+  unfold volume; simp only [logSql_env]; split <;> rfl
+
+@[simp] theorem volume_size (s : Cache) : s.volume.1.size = s.size := by
+  unfold volume; simp only [logSql_env]; split <;> rfl
+
+@[simp] theorem volume_depth (s : Cache) : s.volume.1.depth = s.depth := by
+  unfold volume; simp only [logSql_env]; split <;> rfl
+
+theorem volume_snd_cons (s : Cache) (pb : Nat) (rest : List Nat) (h : s.env = pb :: rest) :
+    s.volume.2 = (pb : Int) + s.size := by
+  unfold volume; simp only [logSql_env, h]; rfl
+
+/-! ### the policy order -/
+
+theorem policyLt_strictWeak (p : Policy) : StrictWeak (policyLt p) := by
+  cases p <;> constructor <;> intros <;> simp_all [policyLt] <;> omega
+
+/-! ### `Cache._cull` -/
+
+/-- the part of `_cull` after the expired rows are gone -/
+def cullTail (s : Cache) (cl : List (Option Nat)) (cullLimit : Nat) : Cache × List (Option Nat) :=
+  if cullLimit == 0 then (s, cl)
+  else if s.cfg.policy == .none then (s, cl)
+  else
+    let (s, vol) := s.volume
+    if belowLimit s.cfg vol then (s, cl)
+    else
+      let rows := s.selPolicy cullLimit
+      let s := s.logSql "selPolicy"
+      if rows.isEmpty then (s, cl)
+      else ((s.delIn (rows.map (·.rowid))).logSql "delPolicy", cl ++ rows.map (·.file))
+
+theorem cullW_eq (s : Cache) (now : Int) (h : s.cfg.cullLimit ≠ 0) :
+    s.cullW now =
+      if (s.selExpired now s.cfg.cullLimit).isEmpty then
+        cullTail (s.logSql "selExpired") [] s.cfg.cullLimit
+      else
+        cullTail (((s.logSql "selExpired").delIn ((s.selExpired now s.cfg.cullLimit).map (·.rowid))).logSql "delExpired")
+          ((s.selExpired now s.cfg.cullLimit).map (·.file))
+          (s.cfg.cullLimit - (s.selExpired now s.cfg.cullLimit).length) := by
+  unfold cullW cullTail
+  simp only [Option.getD_none, beq_iff_eq, h, if_false]
+  split <;> simp
+
+theorem cullTail_rows (t : Cache) (cl : List (Option Nat)) (c : Nat) :
+    (cullTail t cl c).1.rows = t.rows ∨
+    (t.cfg.policy ≠ .none ∧
+     (∀ pb rest, t.env = pb :: rest → belowLimit t.cfg ((pb : Int) + t.size) = false) ∧
+     (cullTail t cl c).1.rows = t.rows.filter (fun r =>
+        !(((isort (policyLt t.cfg.policy) t.rows).take c).map (·.rowid)).contains r.rowid)) := by
+  unfold cullTail
+  by_cases hc : c = 0
+  · left; simp [hc]
+  by_cases hp : t.cfg.policy = .none
+  · left; simp [hp]
+  have hc' : (c == 0) = false := by simpa using hc
+  have hp' : (t.cfg.policy == Policy.none) = false := by simpa using hp
+  simp only [hc', hp', Bool.false_eq_true, if_false]
+  have hr := volume_rows t
+  have hcfg := volume_cfg t
+  have hsnd := volume_snd_cons t
+  generalize t.volume = v at hr hcfg hsnd ⊢
+  rcases v with ⟨t', vol⟩
+  simp only at hr hcfg hsnd ⊢
+  by_cases hb : belowLimit t'.cfg vol = true
+  · left; simp [hb, hr]
+  · simp only [hb]
+    right
+    refine ⟨hp, ?_, ?_⟩
+    · intro pb rest henv
+      rw [hsnd pb rest henv, hcfg] at hb
+      simpa using hb
+    · have hsel : t'.selPolicy c = (isort (policyLt t.cfg.policy) t.rows).take c := by
+        unfold selPolicy; rw [hr, hcfg]
+      rw [hsel]
+      by_cases he : ((isort (policyLt t.cfg.policy) t.rows).take c).isEmpty = true
+      · simp only [he, if_true, Bool.false_eq_true, if_false, logSql_rows_ec, hr]
+        rw [List.isEmpty_iff.1 he]
+        symm; rw [List.filter_eq_self]; intro a _; rfl
+      · simp only [he, Bool.false_eq_true, if_false, logSql_rows_ec, delIn_rows_ec, hr]
+
+/-! ### the rows picked by the expired-rows query -/
+
+theorem selExpired_mem {s : Cache} {now : Int} {n : Nat} {x : Row} (h : x ∈ s.selExpired now n) :
+    x ∈ s.rows ∧ expired now x = true :=
+  List.mem_filter.1 (mem_of_mem_take_isort h)
+
+theorem selExpired_length_le (s : Cache) (now : Int) (n : Nat) : (s.selExpired now n).length ≤ n :=
+  List.length_take_le _ _
+
+theorem selExpired_nodup {s : Cache} (hasc : RowidsAsc s.rows) (now : Int) (n : Nat) :
+    (s.selExpired now n).Nodup :=
+  nodup_take_isort (hasc.nodup.sublist List.filter_sublist) n
+
+/-- if at most `n` rows are expired the query returns all of them -/
+theorem selExpired_all {s : Cache} {now : Int} {n : Nat}
+    (h : (s.rows.filter (expired now)).length ≤ n) {x : Row} (hx : x ∈ s.rows) (he : expired now x = true) :
+    x ∈ s.selExpired now n := by
+  unfold selExpired
+  rw [List.take_of_length_le (by rw [length_isort_ec]; exact h)]
+  exact mem_isort_ec.2 (List.mem_filter.2 ⟨hx, he⟩)
+
+theorem filter_not_mem_nil {α} [DecidableEq α] (l : List α) :
+    l.filter (fun r => decide (r ∉ ([] : List α))) = l := by
+  rw [List.filter_eq_self]; intro a _; simp
+
+/-- Shape of the table after `_cull`: the expired page `E` is gone, and — only if a policy is
+set and the observed volume is not below the limit — so is the policy page `P`. -/
+theorem cullW_spec (s : Cache) (now : Int) (hasc : RowidsAsc s.rows) :
+    ∃ R1 P : List Row,
+      R1 = s.rows.filter (fun r => decide (r ∉ s.selExpired now s.cfg.cullLimit)) ∧
+      P = (isort (policyLt s.cfg.policy) R1).take
+            (s.cfg.cullLimit - (s.selExpired now s.cfg.cullLimit).length) ∧
+      ((s.cullW now).1.rows = R1 ∨
+       (s.cfg.policy ≠ .none ∧
+        (∀ pb rest, s.env = pb :: rest → belowLimit s.cfg ((pb : Int) +
+          (s.delIn ((s.selExpired now s.cfg.cullLimit).map (·.rowid))).size) = false) ∧
+        (s.cullW now).1.rows = R1.filter (fun r => decide (r ∉ P)))) := by
+  refine ⟨_, _, rfl, rfl, ?_⟩
+  by_cases h0 : s.cfg.cullLimit = 0
+  · left
+    have h1 : s.cullW now = (s, []) := by unfold cullW; simp [h0]
+    have h2 : s.selExpired now s.cfg.cullLimit = [] := by unfold selExpired; simp [h0]
+    rw [h1, h2, filter_not_mem_nil]
+  · have hR1 : (s.delIn ((s.selExpired now s.cfg.cullLimit).map (·.rowid))).rows =
+        s.rows.filter (fun r => decide (r ∉ s.selExpired now s.cfg.cullLimit)) := by
+      rw [delIn_rows_ec, filter_rowids_eq hasc (fun x hx => (selExpired_mem hx).1)]
+    have key : ∀ (t : Cache) (cl : List (Option Nat)),
+        t.rows = (s.delIn ((s.selExpired now s.cfg.cullLimit).map (·.rowid))).rows →
+        t.cfg = s.cfg → t.env = s.env →
+        t.size = (s.delIn ((s.selExpired now s.cfg.cullLimit).map (·.rowid))).size →
+        ((cullTail t cl (s.cfg.cullLimit - (s.selExpired now s.cfg.cullLimit).length)).1.rows =
+            s.rows.filter (fun r => decide (r ∉ s.selExpired now s.cfg.cullLimit)) ∨
+         (s.cfg.policy ≠ .none ∧
+          (∀ pb rest, s.env = pb :: rest → belowLimit s.cfg ((pb : Int) +
+            (s.delIn ((s.selExpired now s.cfg.cullLimit).map (·.rowid))).size) = false) ∧
+          (cullTail t cl (s.cfg.cullLimit - (s.selExpired now s.cfg.cullLimit).length)).1.rows =
+            (s.rows.filter (fun r => decide (r ∉ s.selExpired now s.cfg.cullLimit))).filter
+              (fun r => decide (r ∉ (isort (policyLt s.cfg.policy)
+                (s.rows.filter (fun r => decide (r ∉ s.selExpired now s.cfg.cullLimit)))).take
+                  (s.cfg.cullLimit - (s.selExpired now s.cfg.cullLimit).length))))) := by
+      intro t cl hrows hcfg henv hsize
+      rw [hR1] at hrows
+      rcases cullTail_rows t cl (s.cfg.cullLimit - (s.selExpired now s.cfg.cullLimit).length) with h | ⟨hp, hv, h⟩
+      · left; rw [h, hrows]
+      · right
+        rw [hcfg] at hp hv
+        rw [henv, hsize] at hv
+        refine ⟨hp, hv, ?_⟩
+        rw [h, hcfg, hrows]
+        exact filter_rowids_eq (hasc.filter _) (fun x hx => mem_of_mem_take_isort hx)
+    rw [cullW_eq s now h0]
+    split
+    · rename_i he
+      have hE : s.selExpired now s.cfg.cullLimit = [] := List.isEmpty_iff.1 he
+      have := key (s.logSql "selExpired") [] (by rw [hE]; rfl) rfl rfl (by rw [hE]; rfl)
+      rw [hE] at this ⊢
+      simpa using this
+    · exact key _ _ (by rw [logSql_rows_ec, delIn_logSql, logSql_rows_ec]) (by simp) (by simp)
+        (by rw [logSql_size_ec, delIn_logSql, logSql_size_ec])
+
+/-! ### consequences used by C04 / C09 -/
+
+theorem cullW_sublist (s : Cache) (now : Int) (hasc : RowidsAsc s.rows) :
+    (s.cullW now).1.rows.Sublist s.rows := by
+  obtain ⟨R1, P, hR1, -, h | ⟨-, -, h⟩⟩ := cullW_spec s now hasc
+  · rw [h, hR1]; exact List.filter_sublist
+  · rw [h, hR1]; exact List.filter_sublist.trans List.filter_sublist
+
+theorem cullW_length (s : Cache) (now : Int) (hasc : RowidsAsc s.rows) :
+    s.rows.length ≤ (s.cullW now).1.rows.length + s.cfg.cullLimit := by
+  obtain ⟨R1, P, hR1, hP, h⟩ := cullW_spec s now hasc
+  have hE := length_filter_not_mem hasc.nodup (selExpired_nodup hasc now s.cfg.cullLimit)
+    (fun x hx => (selExpired_mem hx).1)
+  rw [← hR1] at hE
+  have hEl := selExpired_length_le s now s.cfg.cullLimit
+  rcases h with h | ⟨-, -, h⟩
+  · rw [h]; omega
+  · have hasc1 : RowidsAsc R1 := by rw [hR1]; exact hasc.filter _
+    have hPl : P.length ≤ s.cfg.cullLimit - (s.selExpired now s.cfg.cullLimit).length := by
+      rw [hP]; exact List.length_take_le _ _
+    have hPn : P.Nodup := by rw [hP]; exact nodup_take_isort hasc1.nodup _
+    have hPs : ∀ x ∈ P, x ∈ R1 := by intro x hx; rw [hP] at hx; exact mem_of_mem_take_isort hx
+    have := length_filter_not_mem hasc1.nodup hPn hPs
+    rw [h]; omega
+
+/-- a removed row that is not expired was removed by the policy part, which ran -/
+theorem cullW_removed (s : Cache) (now : Int) (hasc : RowidsAsc s.rows) (r : Row) (hr : r ∈ s.rows)
+    (hnot : r ∉ (s.cullW now).1.rows) (hne : expired now r = false) :
+    s.cfg.policy ≠ .none ∧
+    (∀ pb rest, s.env = pb :: rest → belowLimit s.cfg ((pb : Int) +
+      (s.delIn ((s.selExpired now s.cfg.cullLimit).map (·.rowid))).size) = false) ∧
+    ∀ w ∈ (s.cullW now).1.rows, policyLt s.cfg.policy w r = false := by
+  obtain ⟨R1, P, hR1, hP, h⟩ := cullW_spec s now hasc
+  have hrE : r ∉ s.selExpired now s.cfg.cullLimit := by
+    intro hx; have := (selExpired_mem hx).2; rw [hne] at this; cases this
+  have hrR1 : r ∈ R1 := by rw [hR1]; exact List.mem_filter.2 ⟨hr, by simpa using hrE⟩
+  rcases h with h | ⟨hp, hv, h⟩
+  · rw [h] at hnot; exact absurd hrR1 hnot
+  · refine ⟨hp, hv, ?_⟩
+    rw [h] at hnot ⊢
+    have hrP : r ∈ P := by
+      apply Classical.byContradiction; intro hc
+      exact hnot (List.mem_filter.2 ⟨hrR1, by simpa using hc⟩)
+    intro w hw
+    obtain ⟨hw1, hw2⟩ := List.mem_filter.1 hw
+    have hw2 : w ∉ P := by simpa using hw2
+    rw [hP] at hrP hw2
+    exact isort_take_le (policyLt_strictWeak _) R1 _ hrP hw1 hw2
+
+/-- no row of the expired page survives -/
+theorem cullW_not_selExpired (s : Cache) (now : Int) (hasc : RowidsAsc s.rows) :
+    ∀ r ∈ (s.cullW now).1.rows, r ∉ s.selExpired now s.cfg.cullLimit := by
+  obtain ⟨R1, P, hR1, -, h⟩ := cullW_spec s now hasc
+  intro r hr
+  have hr1 : r ∈ R1 := by
+    rcases h with h | ⟨-, -, h⟩
+    · rw [h] at hr; exact hr
+    · rw [h] at hr; exact (List.mem_filter.1 hr).1
+  rw [hR1] at hr1
+  simpa using (List.mem_filter.1 hr1).2
+
+/-! ### the policy loop of `cull()` -/
+
+/-- one non-empty round: the transaction that deletes the batch -/
+def cullStep (s : Cache) (rows : List Row) : Cache :=
+  (s.transact fun s =>
+    { s := ((s.logSql "selPolicy").delIn (rows.map (·.rowid))).logSql "delPolicy", out := .none,
+      cleanup := rows.map (·.file) }).1
+
+/-- the last round when the table is empty -/
+def cullEmpty (s : Cache) : Cache :=
+  (s.transact fun s => { s := s.logSql "selPolicy", out := .none }).1
+
+theorem cullLoop_succ (fuel : Nat) (s : Cache) (n : Nat) :
+    cullLoop (fuel + 1) s n =
+      if !aboveLimit s.volume.1.cfg s.volume.2 then (s.volume.1, n)
+      else if (s.volume.1.selPolicy s.volume.1.cfg.batch).isEmpty then (cullEmpty s.volume.1, n)
+      else cullLoop fuel (cullStep s.volume.1 (s.volume.1.selPolicy s.volume.1.cfg.batch))
+        (n + (s.volume.1.selPolicy s.volume.1.cfg.batch).length) := rfl
+
+theorem cullStep_rows (s : Cache) (rows : List Row) :
+    (cullStep s rows).rows = (s.delIn (rows.map (·.rowid))).rows := by
+  unfold cullStep transact
+  by_cases hd : s.depth > 0
+  · simp [hd, delIn_logSql]
+  · simp [hd, delIn_logSql, delIn_log]
+
+theorem cullStep_cfg (s : Cache) (rows : List Row) : (cullStep s rows).cfg = s.cfg := by
+  unfold cullStep transact
+  by_cases hd : s.depth > 0
+  · simp [hd]
+  · simp [hd]
+
+theorem cullEmpty_rows (s : Cache) : (cullEmpty s).rows = s.rows := by
+  unfold cullEmpty transact
+  by_cases hd : s.depth > 0
+  · simp [hd]
+  · simp [hd]
+
+theorem selPolicy_mem {s : Cache} {n : Nat} {x : Row} (h : x ∈ s.selPolicy n) : x ∈ s.rows :=
+  mem_of_mem_take_isort h
+
+theorem selPolicy_nodup {s : Cache} (hasc : RowidsAsc s.rows) (n : Nat) : (s.selPolicy n).Nodup :=
+  nodup_take_isort hasc.nodup n
+
+theorem cullStep_rows_sub (s : Cache) (hasc : RowidsAsc s.rows) (n : Nat) :
+    (cullStep s (s.selPolicy n)).rows = s.rows.filter (fun r => decide (r ∉ s.selPolicy n)) := by
+  rw [cullStep_rows, delIn_rows_ec, filter_rowids_eq hasc (fun x hx => selPolicy_mem hx)]
+
+/-- the loop only removes rows and counts exactly the rows it removes -/
+theorem cullLoop_inv (fuel : Nat) : ∀ (s : Cache) (n : Nat), RowidsAsc s.rows →
+    (cullLoop fuel s n).1.rows.Sublist s.rows ∧
+    (cullLoop fuel s n).2 + (cullLoop fuel s n).1.rows.length = n + s.rows.length := by
+  induction fuel with
+  | zero => intro s n _; exact ⟨List.Sublist.refl _, rfl⟩
+  | succ fuel ih =>
+    intro s n hasc
+    rw [cullLoop_succ]
+    split
+    · simp
+    · split
+      · simp [cullEmpty_rows]
+      · have hasc0 : RowidsAsc s.volume.1.rows := by rw [volume_rows]; exact hasc
+        have hrows := cullStep_rows_sub s.volume.1 hasc0 s.volume.1.cfg.batch
+        have hlen := length_filter_not_mem hasc0.nodup (selPolicy_nodup hasc0 s.volume.1.cfg.batch)
+          (fun x hx => selPolicy_mem hx)
+        have := ih (cullStep s.volume.1 (s.volume.1.selPolicy s.volume.1.cfg.batch))
+          (n + (s.volume.1.selPolicy s.volume.1.cfg.batch).length)
+          (by rw [hrows]; exact hasc0.filter _)
+        rw [hrows] at this
+        rw [volume_rows] at this hlen
+        refine ⟨this.1.trans List.filter_sublist, ?_⟩
+        omega
+
+/-- fuel above the number of rows is never used up -/
+theorem cullLoop_fuel_irrel (f1 : Nat) : ∀ (f2 : Nat) (s : Cache) (n : Nat), 0 < s.cfg.batch →
+    RowidsAsc s.rows → s.rows.length < f1 → s.rows.length < f2 → cullLoop f1 s n = cullLoop f2 s n := by
+  induction f1 with
+  | zero => intro f2 s n _ _ h; omega
+  | succ f1 ih =>
+    intro f2 s n hb hasc h1 h2
+    cases f2 with
+    | zero => omega
+    | succ f2 =>
+      rw [cullLoop_succ, cullLoop_succ]
+      split
+      · rfl
+      · split
+        · rfl
+        · rename_i hne
+          have hasc0 : RowidsAsc s.volume.1.rows := by rw [volume_rows]; exact hasc
+          have hrows := cullStep_rows_sub s.volume.1 hasc0 s.volume.1.cfg.batch
+          have hlen := length_filter_not_mem hasc0.nodup (selPolicy_nodup hasc0 s.volume.1.cfg.batch)
+            (fun x hx => selPolicy_mem hx)
+          have hpos : 0 < (s.volume.1.selPolicy s.volume.1.cfg.batch).length := by
+            cases hsel : s.volume.1.selPolicy s.volume.1.cfg.batch with
+            | nil => rw [hsel] at hne; simp at hne
+            | cons a t => simp
+          rw [volume_rows] at hlen hrows
+          apply ih
+          · rw [cullStep_cfg, volume_cfg]; exact hb
+          · rw [hrows]; exact hasc.filter _
+          · rw [hrows]; omega
+          · rw [hrows]; omega
+
+/-! ### explicit `cull()` -/
+
+theorem length_filter_add_not {α} (p : α → Bool) (l : List α) :
+    (l.filter p).length + (l.filter (fun r => !p r)).length = l.length := by
+  induction l with
+  | nil => rfl
+  | cons a t ih => cases h : p a <;> simp [h] <;> omega
+
+theorem cull_eq (s : Cache) (now : Int) :
+    s.cull now =
+      if (expireLoop now (s.rows.length + 1) s none 0).1.cfg.policy == .none then
+        ((expireLoop now (s.rows.length + 1) s none 0).1, .int (expireLoop now (s.rows.length + 1) s none 0).2)
+      else
+        ((cullLoop ((expireLoop now (s.rows.length + 1) s none 0).1.rows.length + 1)
+            (expireLoop now (s.rows.length + 1) s none 0).1 (expireLoop now (s.rows.length + 1) s none 0).2).1,
+         .int (cullLoop ((expireLoop now (s.rows.length + 1) s none 0).1.rows.length + 1)
+            (expireLoop now (s.rows.length + 1) s none 0).1 (expireLoop now (s.rows.length + 1) s none 0).2).2) := rfl
+
+theorem cull_spec (s : Cache) (now : Int) (hasc : RowidsAsc s.rows) (hp : 0 < s.cfg.page) :
+    (s.cull now).1.rows.Sublist (s.rows.filter (fun r => !(expired now r))) ∧
+    (∃ k : Nat, (s.cull now).2 = .int k ∧ k + (s.cull now).1.rows.length = s.rows.length) ∧
+    (s.cfg.policy = .none → (s.cull now).1.rows = s.rows.filter (fun r => !(expired now r)) ∧
+      (s.cull now).2 = .int (s.rows.filter (expired now)).length) := by
+  obtain ⟨h1, h2, h3⟩ := expire_spec s now hasc hp
+  have hlen := length_filter_add_not (expired now) s.rows
+  rw [cull_eq]
+  generalize expireLoop now (s.rows.length + 1) s none 0 = r at h1 h2 h3 ⊢
+  rcases r with ⟨s1, n1⟩
+  simp only at h1 h2 h3 ⊢
+  have hl1 : s1.rows.length = (s.rows.filter (fun r => !(expired now r))).length := by rw [h1]
+  rw [h3]
+  by_cases hpol : s.cfg.policy = .none
+  · simp only [hpol, beq_self_eq_true, if_true]
+    rw [h1, h2]
+    exact ⟨List.Sublist.refl _, ⟨_, rfl, hlen⟩, fun _ => ⟨rfl, rfl⟩⟩
+  · have : (s.cfg.policy == Policy.none) = false := by simpa using hpol
+    simp only [this, Bool.false_eq_true, if_false]
+    have hasc1 : RowidsAsc s1.rows := by rw [h1]; exact hasc.filter _
+    obtain ⟨c1, c2⟩ := cullLoop_inv (s1.rows.length + 1) s1 n1 hasc1
+    refine ⟨?_, ⟨_, rfl, ?_⟩, fun h => absurd h hpol⟩
+    · rw [← h1]; exact c1
+    · omega
+
 end DC.Cache
